@@ -170,14 +170,40 @@ impl Check for Convergence {
         // 2 the same, and export / import policies switched on and off during the history, each switch
         // followed by the soft reset an operator issues for it
         let xpol = *rng.pick(&[0u64, 0, 1, 2, 2]);
+        // a second address family on every session (IPv6 unicast over the same IPv4 transport), and
+        // routes the operator originates and deletes through AddPath / DeletePath (with path
+        // identifiers, so that one prefix can have several local paths)
+        let v6 = rng.chance(1, 3);
+        let en_local = rng.chance(1, 2);
         let n_ops = rng.range(4, if thorough { 60 } else { 30 });
         let mut ops = Vec::new();
+        let mut locals: Vec<(u64, u64, u64)> = Vec::new();
         let src_roles: Vec<Role> = sources.iter().map(|s| Role::from_u(s.i("role", 0) as u64)).collect();
         for _ in 0..n_ops {
             let s = rng.usize_below(n_src);
             let o = rng.usize_below(n_obs);
-            match rng.weighted(&[40, 16, if en_win { 14 } else { 0 }, 4, if en_down { 5 } else { 0 }, 7, if en_rr { 3 } else { 0 }, 3, if xpol == 2 { 5 } else { 0 }]) {
+            match rng.weighted(&[40, 16, if en_win { 14 } else { 0 }, 4, if en_down { 5 } else { 0 }, 7, if en_rr { 3 } else { 0 }, 3, if xpol == 2 { 5 } else { 0 }, if en_local { 12 } else { 0 }]) {
                 8 => ops.push(jarr!["pol", rng.below(3), rng.coin(), o]),
+                9 => {
+                    let fam = if v6 && rng.chance(1, 3) { 1u64 } else { 0 };
+                    if rng.chance(2, 3) {
+                        let mut spec = gen_rspec(&mut rng, Role::Ibgp, 0);
+                        if xpol != 0 && rng.chance(1, 3) {
+                            spec.com = vec![0xfde8_0001];
+                        }
+                        if rng.chance(1, 4) {
+                            spec.nh = 0; // no next hop given: the daemon's own address
+                        }
+                        let (p, id) = (rng.below(n_pfx), rng.below(3));
+                        locals.push((p, id, fam));
+                        ops.push(jarr!["ladd", p, id, spec.to_json(), fam]);
+                    } else if !locals.is_empty() && rng.chance(4, 5) {
+                        let (p, id, f) = locals.swap_remove(rng.usize_below(locals.len()));
+                        ops.push(jarr!["ldel", p, id, f]);
+                    } else {
+                        ops.push(jarr!["ldel", rng.below(n_pfx), rng.below(3), fam]);
+                    }
+                }
                 0 => {
                     let mut spec = gen_rspec(&mut rng, src_roles[s], asn_for(src_roles[s], s));
                     if xpol != 0 && rng.chance(1, 3) {
@@ -185,11 +211,13 @@ impl Check for Convergence {
                         spec.com = vec![0xfde8_0001];
                     }
                     let pid = if sources[s].get("addpath_rx").map(|b| b.as_bool()).unwrap_or(false) { rng.range(1, 2) } else { 0 };
-                    ops.push(jarr!["ann", s, rng.below(n_pfx), pid, spec.to_json()]);
+                    let fam = if v6 && rng.chance(1, 3) { 1u64 } else { 0 };
+                    ops.push(jarr!["ann", s, rng.below(n_pfx), pid, spec.to_json(), fam]);
                 }
                 1 => {
                     let pid = if sources[s].get("addpath_rx").map(|b| b.as_bool()).unwrap_or(false) { rng.range(1, 2) } else { 0 };
-                    ops.push(jarr!["wd", s, rng.below(n_pfx), pid]);
+                    let fam = if v6 && rng.chance(1, 3) { 1u64 } else { 0 };
+                    ops.push(jarr!["wd", s, rng.below(n_pfx), pid, fam]);
                 }
                 2 => ops.push(jarr!["win", o, rng.coin()]),
                 3 => ops.push(jarr!["wait", *rng.pick(&[1u64, 10, 100, 1000, 20000])]),
@@ -211,7 +239,7 @@ impl Check for Convergence {
             }
         }
         jobj! {
-            "shards" => rng.range(1, 3), "hold" => *rng.pick(&[0u64, 0, 30, 90]), "confed" => confed, "xpol" => xpol,
+            "shards" => rng.range(1, 3), "hold" => *rng.pick(&[0u64, 0, 30, 90]), "confed" => confed, "xpol" => xpol, "v6" => v6,
             "sources" => Json::Arr(sources), "observers" => Json::Arr(observers), "pipes" => Json::Arr(pipes),
             "sub" => rng.next_u64() >> 1, "ops" => Json::Arr(ops)
         }
@@ -248,11 +276,11 @@ impl Check for Convergence {
 
     fn info(&self) -> CheckInfo {
         CheckInfo {
-            rule: "1-3 source speakers (roles eBGP/iBGP/RR-client/RS-client/confed, optional add-path towards the DUT) and 1-2 observers (any role, send-max 1-3) on real sessions; history of announce / replace / withdraw / source crash (FIN, RST) / reconnect / route-refresh over 2-8 prefixes; in 3 of 5 runs a global export policy (reject community 65000:1, set MED on the rest) so that a replacement can make a route non-exportable, in 2 of 5 also the global export policy, the global import policy and one observer's own export policy (and its twin's) added and deleted through the gRPC handlers during the history, each switch followed by the operator's soft reset (out towards the observers, in for the sources); the observer's receive window is opened and closed by the schedule, pipes have seeded latency, fragmentation and capacity, 1-3 shards. At check points: windows opened, quiescence, an identically configured twin connects and receives its initial dump; mirror(observer) must equal mirror(twin) (prefix, path id, attributes, next hop). non-trivial = at least one RIB change was delivered to an observer while its window was closed, or a check compared a non-empty mirror; distinct = hash of the seam-event sequence (which connection read/wrote how much, in order)".into(),
-            components_real: vec!["accept_connection, PeerSession::{run,session_loop,run_select,rx_msg,rx_update,handle_prefix_update,do_route_refresh,on_established,flush_tx}".into(), "export::process_nlri_change, ExportMap, peer_tx::PendingTx".into(), "TableManager, table::Table".into(), "fsm::PeerFsm, packet::PeerCodec (both directions)".into(), "GrpcService::start_bgp".into()],
+            rule: "1-3 source speakers (roles eBGP/iBGP/RR-client/RS-client/confed, optional add-path towards the DUT) and 1-2 observers (any role, send-max 1-3) on real sessions; history of announce / replace / withdraw / source crash (FIN, RST) / reconnect / route-refresh over 2-8 prefixes; in a third of the runs every session also carries IPv6 unicast and announcements, withdrawals and refreshes are spread over both families; in half of the runs the operator originates and deletes routes through the AddPath / DeletePath handlers (path identifiers 0-2, so one prefix can hold several local paths; with and without an explicit next hop); in 3 of 5 runs a global export policy (reject community 65000:1, set MED on the rest) so that a replacement can make a route non-exportable, in 2 of 5 also the global export policy, the global import policy and one observer's own export policy (and its twin's) added and deleted through the gRPC handlers during the history, each switch followed by the operator's soft reset (out towards the observers, in for the sources); the observer's receive window is opened and closed by the schedule, pipes have seeded latency, fragmentation and capacity, 1-3 shards. At check points: windows opened, quiescence, an identically configured twin connects and receives its initial dump; mirror(observer) must equal mirror(twin) (prefix, path id, attributes, next hop). non-trivial = at least one RIB change was delivered to an observer while its window was closed, or a check compared a non-empty mirror; distinct = hash of the seam-event sequence (which connection read/wrote how much, in order)".into(),
+            components_real: vec!["accept_connection, PeerSession::{run,session_loop,run_select,rx_msg,rx_update,handle_prefix_update,do_route_refresh,on_established,flush_tx}".into(), "export::process_nlri_change, ExportMap, peer_tx::PendingTx".into(), "TableManager, table::Table".into(), "fsm::PeerFsm, packet::PeerCodec (both directions)".into(), "GrpcService::{start_bgp, add_path, delete_path, local_path, add_policy_assignment, delete_policy_assignment, reset_peer}".into()],
             components_stubbed: vec!["TCP, clock, listener/dispatch loop, remote speakers (scripted; decode with the repository codec negotiated from their side + an independent frame walker)".into()],
             assumptions: vec!["observers and twins announce nothing, so echo suppression cannot differ between them".into(), "a mirror bug shared by encoder and decoder is invisible (framing is checked independently)".into()],
-            bounds: "<=60 ops, <=3 sources, <=2 observers (+twins), <=8 prefixes, IPv4 unicast".into(),
+            bounds: "<=60 ops, <=3 sources, <=2 observers (+twins), <=8 prefixes, IPv4 and IPv6 unicast".into(),
         }
     }
 }
@@ -287,7 +315,12 @@ async fn run(case: Json, tol: Tolerate) -> Outcome {
     }
     let pipes: Vec<PipeOpts> = case.get("pipes").map(|p| p.arr().iter().map(pipe_opts_from_json).collect()).unwrap_or_default();
     let pipe = |k: usize| -> PipeOpts { pipes.get(k).cloned().unwrap_or_default() };
-    let mut t = Topo::new(&wcfg, nodes, vec![Family::IPV4], hold).await;
+    let v6 = case.get("v6").map(|b| b.as_bool()).unwrap_or(false);
+    let families = if v6 { vec![Family::IPV4, Family::IPV6] } else { vec![Family::IPV4] };
+    let mut t = Topo::new(&wcfg, nodes, families.clone(), hold).await;
+    let fam_of = |j: &Json| -> (Family, fn(u64) -> packet::Nlri) { if v6 && matches!(j, Json::Int(1)) { (Family::IPV6, v6_prefix) } else { (Family::IPV4, v4_prefix) } };
+    // uuids the daemon returned for the operator's local paths: (family, prefix, identifier) -> uuid
+    let mut local_uuid: std::collections::BTreeMap<(u32, u64, u32), Vec<u8>> = Default::default();
     let xpol = case.i("xpol", 0);
     // Policies are configured the way an operator does it, through the gRPC handlers: a community
     // set, two statements (reject routes carrying 65000:1; MED 77 on the rest) and a policy made of
@@ -344,8 +377,10 @@ async fn run(case: Json, tol: Tolerate) -> Outcome {
                 let spec = RSpec::from_json(op.at(4));
                 let role = t.nodes[s].cfg.role;
                 if t.nodes[s].spk.established() {
-                    let net = packet::PathNlri { path_id: op.at(3).as_u32(), nlri: v4_prefix(op.at(2).as_u64()) };
-                    t.nodes[s].spk.announce(Family::IPV4, vec![net], Some(spec.nexthop()), spec.attrs(role));
+                    let (fam, pfx) = fam_of(op.at(5));
+                    let net = packet::PathNlri { path_id: op.at(3).as_u32(), nlri: pfx(op.at(2).as_u64()) };
+                    let nh = if fam == Family::IPV6 { bgp::Nexthop::V6(Ipv6Addr::new(0x2001, 0xdb8, 0xffff, 0, 0, 0, 0, spec.nh as u16)) } else { spec.nexthop() };
+                    t.nodes[s].spk.announce(fam, vec![net], Some(nh), spec.attrs(role));
                     out.hit("op.announce");
                     if (n_src..n_src + n_obs).any(|o| t.nodes[o].spk.conn.as_ref().map(|c| !c.ctl().window_open()).unwrap_or(false)) {
                         closed_window_changes += 1;
@@ -356,9 +391,64 @@ async fn run(case: Json, tol: Tolerate) -> Outcome {
             "wd" => {
                 let s = op.at(1).as_usize() % n_src;
                 if t.nodes[s].spk.established() {
-                    let net = packet::PathNlri { path_id: op.at(3).as_u32(), nlri: v4_prefix(op.at(2).as_u64()) };
-                    t.nodes[s].spk.withdraw(Family::IPV4, vec![net]);
+                    let (fam, pfx) = fam_of(op.at(4));
+                    let net = packet::PathNlri { path_id: op.at(3).as_u32(), nlri: pfx(op.at(2).as_u64()) };
+                    t.nodes[s].spk.withdraw(fam, vec![net]);
                     out.hit("op.withdraw");
+                    if (n_src..n_src + n_obs).any(|o| t.nodes[o].spk.conn.as_ref().map(|c| !c.ctl().window_open()).unwrap_or(false)) {
+                        closed_window_changes += 1;
+                    }
+                    t.w.quiesce().await;
+                }
+            }
+            "ladd" => {
+                // AddPath: what `gobgp global rib add` sends. A second AddPath for the same prefix and
+                // identifier replaces the path (and the operator forgets the first uuid).
+                let (fam, pfx) = fam_of(op.at(4));
+                let spec = RSpec::from_json(op.at(3));
+                let mut pattrs: Vec<api::Attribute> = spec.attrs(Role::Ibgp).iter().map(crate::convert::attr_to_api).collect();
+                if spec.nh != 0 {
+                    if fam == Family::IPV6 {
+                        pattrs.push(api::Attribute { attr: Some(api::attribute::Attr::MpReach(api::MpReachNlriAttribute { family: Some(crate::convert::family_to_api(fam)), next_hops: vec![format!("2001:db8:ffff::{:x}", spec.nh)], nlris: vec![] })) });
+                    } else {
+                        pattrs.push(api::Attribute { attr: Some(api::attribute::Attr::NextHop(api::NextHopAttribute { next_hop: format!("192.0.2.{}", spec.nh) })) });
+                    }
+                } else if fam == Family::IPV6 {
+                    pattrs.push(api::Attribute { attr: Some(api::attribute::Attr::MpReach(api::MpReachNlriAttribute { family: Some(crate::convert::family_to_api(fam)), next_hops: vec!["::".to_string()], nlris: vec![] })) });
+                } else {
+                    pattrs.push(api::Attribute { attr: Some(api::attribute::Attr::NextHop(api::NextHopAttribute { next_hop: "0.0.0.0".to_string() })) });
+                }
+                let path = api::Path { nlri: Some(crate::convert::nlri_to_api(&pfx(op.at(1).as_u64()))), family: Some(crate::convert::family_to_api(fam)), identifier: op.at(2).as_u32(), pattrs, ..Default::default() };
+                match t.w.grpc.add_path(tonic::Request::new(api::AddPathRequest { table_type: api::TableType::Global as i32, vrf_id: String::new(), path: Some(path) })).await {
+                    Ok(r) => {
+                        let key = (fam_key(fam), op.at(1).as_u64(), op.at(2).as_u32());
+                        if let Some(old) = local_uuid.insert(key, r.into_inner().uuid) {
+                            // the handle of the replaced path is dropped the way a client drops it
+                            let _ = old;
+                        }
+                        out.hit("op.local-path-added");
+                    }
+                    Err(e) => {
+                        out.harness_error = Some(format!("AddPath refused: {}", e));
+                        out.vtime_ms = t.now();
+                        return out;
+                    }
+                }
+                if (n_src..n_src + n_obs).any(|o| t.nodes[o].spk.conn.as_ref().map(|c| !c.ctl().window_open()).unwrap_or(false)) {
+                    closed_window_changes += 1;
+                }
+                t.w.quiesce().await;
+            }
+            "ldel" => {
+                let (fam, _) = fam_of(op.at(3));
+                let key = (fam_key(fam), op.at(1).as_u64(), op.at(2).as_u32());
+                if let Some(uuid) = local_uuid.remove(&key) {
+                    if let Err(e) = t.w.grpc.delete_path(tonic::Request::new(api::DeletePathRequest { uuid, ..Default::default() })).await {
+                        out.harness_error = Some(format!("DeletePath refused: {}", e));
+                        out.vtime_ms = t.now();
+                        return out;
+                    }
+                    out.hit("op.local-path-deleted");
                     if (n_src..n_src + n_obs).any(|o| t.nodes[o].spk.conn.as_ref().map(|c| !c.ctl().window_open()).unwrap_or(false)) {
                         closed_window_changes += 1;
                     }
@@ -462,7 +552,8 @@ async fn run(case: Json, tol: Tolerate) -> Outcome {
             "rr" => {
                 let o = n_src + op.at(1).as_usize() % n_obs;
                 if t.nodes[o].spk.established() {
-                    t.nodes[o].spk.send(&bgp::Message::RouteRefresh { family: Family::IPV4 });
+                    let fam = if v6 && opi % 2 == 1 { Family::IPV6 } else { Family::IPV4 };
+                    t.nodes[o].spk.send(&bgp::Message::RouteRefresh { family: fam });
                     out.hit("op.route-refresh");
                     t.w.quiesce().await;
                 }
@@ -483,12 +574,12 @@ async fn run(case: Json, tol: Tolerate) -> Outcome {
                     let tw = o + n_obs;
                     t.connect(tw, &PipeOpts::default(), &PipeOpts::default()).await;
                     for _ in 0..20 {
-                        if t.nodes[tw].spk.eor_seen.contains(&fam_key(Family::IPV4)) {
+                        if families.iter().all(|f| t.nodes[tw].spk.eor_seen.contains(&fam_key(*f))) {
                             break;
                         }
                         t.advance(10).await;
                     }
-                    if !t.nodes[tw].spk.eor_seen.contains(&fam_key(Family::IPV4)) {
+                    if !families.iter().all(|f| t.nodes[tw].spk.eor_seen.contains(&fam_key(*f))) {
                         out.harness_error = Some(format!("twin {} never received End-of-RIB (state {:?})", tw, t.nodes[tw].spk.state));
                         out.vtime_ms = t.now();
                         return out;
